@@ -12,7 +12,8 @@ R6 no history-dependent state (memo tables keyed incompletely, shared scratch co
 """
 import ast
 
-from sa import sym, report, termdiff
+from sa import sym, report, termdiff, boolalg
+from sa.teval import agree
 from sa.sym import show, num, num_value, atoms_of
 from sa.cfg import CFG
 from sa.model import dotted, own_calls, own_nodes
@@ -86,18 +87,44 @@ def _r1_subtile(run, ev):
     eq = ("op", "and", (sym.cmp("Eq", ("attr", d, "x"), ("attr", s, "x")), sym.cmp("Eq", ("attr", d, "y"), ("attr", s, "y"))))
     parent = ("nt", "Pos", (ev0.expr("p.n - 1", {"p": d}), ev0.expr("p.x // 2", {"p": d}), ev0.expr("p.y // 2", {"p": d})))
     rec = ("call", ("sym", "is_subtile"), (parent, s), ())
-    ok = len(rets) == 2 and rets[0][1] == eq and rets[1][1] == rec
-    if ok:
-        c0 = [c for c in rets[0][0] if c[0] != "loop"]
-        ok = any(c == (sym.cmp("Eq", ("attr", d, "n"), ("attr", s, "n")), True) for c in c0)
     own = {id(n) for n in own_nodes(f.node)}
     raises = [e for e in r.events if e.kind == "raise" and id(e.node) in own]
-    ok = ok and len(raises) == 1 and [c for c in raises[0].pc if c[0] != "loop"] == [(("op", "cmp:Lt", (("attr", d, "n"), ("attr", s, "n"))), True)]
-    if ok:
-        run.holds("C13.R1", f, None, "is_subtile: equal depth -> same x and y; deeper -> is_subtile(parent(deeper), shallower); shallower -> error")
-    else:
-        run.violated("C13.R1", f, None, "is_subtile is not `n equal: x == x and y == y; else recurse on pos_parent(deeper)[0]` (returns: %s)" %
+    guard_ok = len(raises) == 1 and boolalg.equiv(boolalg.conj(raises[0].pc), sym.cmp("Lt", ("attr", d, "n"), ("attr", s, "n"))) is True
+    verdict = None
+    if len(rets) == 2 and rets[1][1][0] == "call" and rets[1][1][1] == ("sym", "is_subtile"):
+        # recursive form
+        ok = boolalg.equiv(rets[0][1], eq) is True and rets[1][1] == rec
+        if ok:
+            c0 = boolalg.conj([c for c in rets[0][0] if c[0] != "loop" and c[0] != raises[0].pc[-1][0]] if raises else rets[0][0])
+            ok = boolalg.equiv(c0, sym.cmp("Eq", ("attr", d, "n"), ("attr", s, "n"))) is True
+        verdict = ok and guard_ok
+    elif len(rets) == 1:
+        # iterative form: cur = deeper; while cur.n != shallower.n: cur = parent(cur); return cur.x == s.x and cur.y == s.y
+        t = rets[0][1]
+        after = sorted({a for a in atoms_of(t) if a[0] == "sym" and "@A" in a[1]}, key=repr)
+        if len(after) == 1:
+            name, k = after[0][1].split("@A")
+            cur = ("sym", "%s@L%s" % (name, k))
+            want_ret = ("op", "and", (sym.cmp("Eq", ("attr", after[0], "x"), ("attr", s, "x")), sym.cmp("Eq", ("attr", after[0], "y"), ("attr", s, "y"))))
+            wl = [it for kk, it, n in r.loops if str(kk) == k and it[0] == "op" and it[1] == "while"]
+            cont = wl[0][2][0] if wl else None
+            ne = sym.cmp("NotEq", ("attr", cur, "n"), ("attr", s, "n"))
+            gt = sym.cmp("Gt", ("attr", cur, "n"), ("attr", s, "n"))
+            cond_ok = cont is not None and (boolalg.equiv(cont, ne) is True or boolalg.equiv(cont, gt) is True)
+            par = ("nt", "Pos", (ev0.expr("p.n - 1", {"p": cur}), ev0.expr("p.x // 2", {"p": cur}), ev0.expr("p.y // 2", {"p": cur})))
+            steps = [e for e in r.events if e.kind == "assign" and e.term[1][0] == ("sym", name) and ("loop", int(k)) in e.pc]
+            inits = [e for e in r.events if e.kind == "assign" and e.term[1][0] == ("sym", name) and ("loop", int(k)) not in e.pc]
+            step_ok = len(steps) == 1 and steps[0].term[1][1] == par and not [c for c in steps[0].pc if c[0] != "loop" and cur in atoms_of(c[0])]
+            init_ok = len(inits) == 1 and inits[0].term[1][1] == d
+            verdict = boolalg.equiv(t, want_ret) is True and cond_ok and step_ok and init_ok and guard_ok
+    if verdict is True:
+        run.holds("C13.R1", f, None, "is_subtile: climb from the deeper position to the level of the shallower one (parent by parent), then same x and y; shallower -> error")
+    elif verdict is False:
+        run.violated("C13.R1", f, None, "is_subtile is not `n equal: x == x and y == y; else the same question for pos_parent(deeper)[0]` (returns: %s)" %
                      [show(t)[:80] for pc, t in rets], kind="is-subtile")
+    else:
+        run.undecided("C13.R1", f, None, "is_subtile has neither the recursive nor the iterative ancestor-climbing shape (returns: %s)" %
+                      [show(t)[:80] for pc, t in rets], kind="is-subtile-shape")
 
 
 def _norm_shift(t):
@@ -160,7 +187,13 @@ def _r3_subpyramid(run, ev):
             name = c[1].split("@")[0]
             init = [e for e in r.events if e.kind == "assign" and e.term[1][0] == ("sym", name) and not [x for x in e.pc if x[0] == "loop" and ("loop", x[1]) in pc]]
             brk = [e for e in r.events if e.kind == "break" and any(x in e.pc for x in pc if x[0] == "loop")]
-            stop = any([cc for cc in e.pc if cc[0] != "loop"][-1:] == [(sym.cmp("Eq", parent[2][0], num(0)), True)] for e in brk)
+            stop = any(boolalg.equiv(boolalg.conj([cc for cc in e.pc if cc[0] != "loop"][-1:]), sym.cmp("Eq", parent[2][0], num(0))) is True for e in brk)
+            # the same walk written with the test first: `while cur.n > 0: cur = parent(cur); yield cur`
+            lk = [x[1] for x in pc if x[0] == "loop"]
+            wcond = [it_[2][0] for k_, it_, n_ in r.loops if lk and k_ == lk[-1] and it_[0] == "op" and it_[1] == "while"]
+            if wcond and wcond[0] != sym.TRUE and not brk:
+                cn = ("attr", c, "n")
+                stop = wcond[0] in (sym.cmp("Gt", cn, num(0)), sym.cmp("NotEq", cn, num(0)), sym.cmp("GtE", cn, num(1)))
             okc = p_t == parent and t[1][1] == sym.NONE and any(e.term[1][1] == apex for e in init) and stop
     if okc:
         run.holds("C13.R3", f, ancs[0][2], "after the sub-pyramid its apex's ancestors are yielded (parent by parent) until level 0")
@@ -219,16 +252,17 @@ def _reducer_facts(ev0, f):
 def _r5_reducers(run, ev):
     project = run.project
     ev0 = sym.make_evaluator(project, PYR, [])
+    ev0.static_len = c01._reducer_slots      # the reduction iterator hands out the four child slots
     specs = {}
 
     def dsub(data, i, j=None):
-        t = ("sub", data, num(i))
-        return t if j is None else ("sub", t, num(j))
+        t = ("item", data, i)
+        return t if j is None else ("item", t, j)
     for name, default in (("count_leaf_tiles", num(0)), ("count_live_tiles", num(0)), ("count_operations", ("tuple", (sym.FALSE, num(0))))):
         f = project.fn("%s.Pyramid.%s" % (PYR, name))
         fx = _reducer_facts(ev0, f)
-        if fx is None or len(fx["set_data"]) != 1:
-            run.undecided("C13.R5", f, None, "%s: reduction loop with one set_data not found" % name, kind="reducer-shape")
+        if fx is None or not fx["set_data"]:
+            run.undecided("C13.R5", f, None, "%s: reduction loop with set_data not found" % name, kind="reducer-shape")
             continue
         leaf, data = fx["leaf"], fx["data"]
         s4 = num(0)
@@ -244,19 +278,42 @@ def _r5_reducers(run, ev):
             for i in range(4):
                 o4 = sym.add(o4, dsub(data, i, 1))
             want = ("tuple", (("ite", leaf, sym.TRUE, anyl), ("ite", leaf, num(0), ("ite", anyl, sym.add(o4, num(1)), o4))))
-        got = fx["set_data"][0].term[2][0] if fx["set_data"][0].term[2] else None
-        got_l, want_l = termdiff.lift(got), termdiff.lift(want)
-        d = termdiff.diff(got_l, want_l)
+        # the value recorded for a tile: the argument of whichever set_data call runs (exactly one must)
+        got = None
+        cover = num(0)
+        for e_sd in reversed(fx["set_data"]):
+            c_sd = boolalg.conj([c for c in e_sd.pc if c[0] != "loop" and fx["el"] in atoms_of(c[0])])
+            v_sd = e_sd.term[2][0] if e_sd.term[2] else sym.NONE
+            got = v_sd if (got is None and c_sd == sym.TRUE) else sym.mk_ite(c_sd, v_sd, got if got is not None else sym.NONE)
+            cover = sym.add(cover, sym.mk_ite(c_sd, num(1), num(0)))
         dv = dict(fx["it"][3]).get("default_value")
-        if d[0] == "equal" and dv == default and not [c for c in fx["set_data"][0].pc if c[0] != "loop"]:
-            run.holds("C13.R5", f, fx["set_data"][0].node, "%s: per-tile value follows its recurrence (default %s)" % (name, show(default)))
+        # the per-tile value as a function of (is_leaf, the four child values): compared with the recurrence on the grid
+        # {0,1,2}^4 (x {False,True}^4 for the liveness flags) -- complete for values that are piecewise linear in the
+        # child values with pieces selected by zero / non-zero tests
+        doms = {leaf: [False, True]}
+        if name == "count_operations":
+            for i in range(4):
+                doms[dsub(data, i, 0)] = [False, True]
+                doms[dsub(data, i, 1)] = [0, 1, 2]
+        else:
+            for i in range(4):
+                doms[dsub(data, i)] = [0, 1, 2]
+        verdict = agree(got, want, doms) if got is not None else ("unknown", None)
+        unconditional = agree(cover, num(1), doms)[0] == "equal"
+        if verdict[0] == "equal" and dv == default and unconditional:
+            run.holds("C13.R5", f, fx["set_data"][0].node, "%s: per-tile value follows its recurrence on all %d cases (default %s)" % (name, verdict[1], show(default)))
             specs[name] = want
         elif dv != default:
             run.violated("C13.R5", f, fx["node"], "%s reduces with default value %s, expected %s (value of a missing child)" % (name, show(dv), show(default)), kind="reducer-default")
-        elif d[0] == "definite":
-            run.violated("C13.R5", f, fx["set_data"][0].node, "%s: per-tile value deviates from its recurrence: %s" % (name, termdiff.describe(d)), kind="reducer-" + name)
+        elif verdict[0] == "differ":
+            env_, g_, w_ = verdict[1:]
+            case = ", ".join("%s=%s" % (show(k_).split(")")[-1] or show(k_)[-12:], v_) for k_, v_ in env_.items())
+            run.violated("C13.R5", f, fx["set_data"][0].node, "%s: per-tile value deviates from its recurrence: for %s it records %s, expected %s" % (name, case[:160], g_, w_),
+                         kind="reducer-" + name)
+        elif not unconditional:
+            run.violated("C13.R5", f, fx["set_data"][0].node, "%s: set_data does not run exactly once for every tile" % name, kind="reducer-" + name)
         else:
-            run.undecided("C13.R5", f, fx["set_data"][0].node, "%s: per-tile value %s cannot be related to the recurrence %s" % (name, show(got)[:140], show(want)[:140]),
+            run.undecided("C13.R5", f, fx["set_data"][0].node, "%s: per-tile value %s cannot be evaluated against the recurrence" % (name, show(got)[:140]),
                           kind="reducer-structure-" + name)
         # result: riter.result() (ops: [1])
         rets = [t for pc, t, n in fx["r"].returns if "result" in show(t)]
@@ -267,7 +324,8 @@ def _r5_reducers(run, ev):
     run.note_func(f)
     fx = _reducer_facts(ev0, f)
     cbs = [e for e in fx["r"].events if e.kind == "call" and e.term[1] == ("sym", "callback")] if fx else []
-    if fx and len(cbs) == 1 and [c for c in cbs[0].pc if c[0] != "loop"] == [(fx["leaf"], True)] and tuple(cbs[0].term[2]) == (fx["pos"], fx["tile"]):
+    if fx and len(cbs) == 1 and boolalg.equiv(boolalg.conj([c for c in cbs[0].pc if c[0] != "loop" and fx["el"] in atoms_of(c[0])]), fx["leaf"]) is True \
+            and tuple(cbs[0].term[2]) == (fx["pos"], fx["tile"]):
         run.holds("C13.R5", f, cbs[0].node, "leaf visits: callback(pos, tile) exactly for items with is_leaf")
     else:
         run.violated("C13.R5", f, cbs[0].node if cbs else None, "serial leaf visit does not call callback(pos, tile) exactly under is_leaf: visited leaves differ from "
@@ -279,7 +337,7 @@ def _r5_reducers(run, ev):
         r = ev0.run(f.node)
         tot = ("call", ("attr", ("sym", "self"), counter), (), ())
         early = [(pc, t, n) for pc, t, n in r.returns if [c for c in pc if c[0] != "loop"]]
-        ok = len(early) == 1 and [c for c in early[0][0] if c[0] != "loop"][-1] == (sym.cmp("Eq", tot, num(0)), True)
+        ok = len(early) == 1 and boolalg.equiv(boolalg.conj([c for c in early[0][0] if c[0] != "loop" and tot in atoms_of(c[0])]), sym.cmp("Eq", tot, num(0))) is True
         if ok:
             run.holds("C13.R5", f, early[0][2], "%s: total = self.%s(); nothing to do only when it is 0" % (f.name, counter))
         else:
@@ -288,14 +346,21 @@ def _r5_reducers(run, ev):
     f = project.fn(PYR + ".Pyramid._walk_parallel")
     fx = _reducer_facts(ev0, f)
     if fx and fx["set_data"] and "count_operations" in specs:
-        got = termdiff.lift(fx["set_data"][0].term[2][0])
-        want = termdiff.lift(_rebase(specs["count_operations"], project, ev0, fx))
-        if got == want:
+        got = fx["set_data"][0].term[2][0]
+        want = _rebase(specs["count_operations"], project, ev0, fx)
+        doms = {fx["leaf"]: [False, True]}
+        for i in range(4):
+            doms[("item", ("item", fx["data"], i), 0)] = [False, True]
+            doms[("item", ("item", fx["data"], i), 1)] = [0, 1, 2]
+        verdict = agree(got, want, doms)
+        if verdict[0] == "equal":
             run.holds("C13.R5", f, fx["set_data"][0].node, "parallel walk preparation: same (liveness, operations) recurrence as count_operations()")
+        elif verdict[0] == "differ":
+            env_, g_, w_ = verdict[1:]
+            run.violated("C13.R5", f, fx["set_data"][0].node, "the parallel walk's preparation pass counts operations differently from count_operations(): "
+                         "it records %s where count_operations records %s" % (g_, w_), kind="parallel-ops-recurrence")
         else:
-            d = termdiff.diff(got, want)
-            run.violated("C13.R5", f, fx["set_data"][0].node, "the parallel walk's preparation pass counts operations differently from count_operations(): %s" %
-                         termdiff.describe(d), kind="parallel-ops-recurrence")
+            run.undecided("C13.R5", f, fx["set_data"][0].node, "cannot evaluate the preparation pass's recurrence %s" % show(got)[:140], kind="parallel-ops-structure")
 
 
 def _rebase(spec, project, ev0, fx):
